@@ -45,6 +45,7 @@ func plan(thorough bool) []family {
 			{Name: "1-layer/level-deep", Shapes: []string{"p"}, Backends: []string{"level"}, Scens: []string{"S/sibling", "M/dbl"}, Depth: 3, NKeys: 3, NVals: 2, LowerWrites: true},
 			{Name: "2-layers", Shapes: []string{"rr", "rp", "pp", "pr"}, Backends: allBackends, Scens: scMix, Depth: 2, NKeys: 3, NVals: 2, LowerWrites: true},
 			{Name: "3-layers", Shapes: []string{"rrr", "rpp"}, Backends: allBackends, Scens: []string{"S/chain", "S/sibling", "S/dbl", "M/ffmid", "M/fftop"}, Depth: 2, NKeys: 3, NVals: 2, LowerWrites: true},
+			{Name: "3-layers/private-over-wrapped", Shapes: []string{"rrp"}, Backends: allBackends, Scens: []string{"S/chain", "S/sibling", "S/dbl"}, Depth: 1, NKeys: 3, NVals: 2, LowerWrites: true},
 		}
 	}
 	return []family{
@@ -301,6 +302,11 @@ func (e *explorer) runSeq(en *env, c *stackCase, seq []int, forceFull bool, out 
 		}
 	}
 	b := &battery{s: s, m: m, sc: sc, fullLv: fullLv, out: out}
+	report := m
+	if fullLv[len(fullLv)-1] && s.daos != nil && sc.Class == "S" {
+		// the battery ends with Seek callbacks that write: report the state before them
+		report = m.clone()
+	}
 	b.run()
 	e.fullB.Add(b.nfull)
 	e.stat(c.fam.Name, 1, b.nfull, b.nq)
@@ -310,7 +316,7 @@ func (e *explorer) runSeq(en *env, c *stackCase, seq []int, forceFull bool, out 
 			en.drop(c.backend)
 		}
 	}
-	return append(fails, b.fails...), m
+	return append(fails, b.fails...), report
 }
 
 func (e *explorer) node(en *env, c *stackCase, seq []int, out map[string]int) {
